@@ -1566,7 +1566,10 @@ def tt_loglikelihood_row(
     """
     term1 = -np.sum(model_row)
     if isSparse:
-        term2 = np.sum(data_row.transpose() * np.log(model_row.dot(Pi.transpose())))
+        # 0 * log(x) = 0 also for an explicitly stored zero
+        b_pi = model_row.dot(Pi.transpose())
+        skip_zeros = data_row.transpose()[0] != 0
+        term2 = np.sum(data_row.transpose()[0][skip_zeros] * np.log(b_pi[skip_zeros]))
     else:
         b_pi = model_row.dot(Pi.transpose())
         skip_zeros = data_row != 0
@@ -1827,8 +1830,10 @@ def tt_loglikelihood(
         A = Model.factor_matrices[0][xsubs[:, 0], :]
         for n in range(1, N):
             A *= Model.factor_matrices[n][xsubs[:, n], :]
+        # 0 * log(x) = 0 also for an explicitly stored zero
+        stored_nz = Data.vals[:, 0] != 0
         return float(
-            np.sum(Data.vals * np.log(np.sum(A, axis=1))[:, None])
+            np.sum(Data.vals[stored_nz, 0] * np.log(np.sum(A[stored_nz, :], axis=1)))
             - np.sum(Model.factor_matrices[0])
         )
     dX = Data.to_tenmat(np.array([1], order=Data.order), copy=False).data
